@@ -205,3 +205,141 @@ pub fn eval1_m(code: &str, vars: &[(&str, &MVal)], input: &MVal) -> Result<MVal,
 pub fn show_outs(outs: &[Out]) -> String {
     outs.iter().map(|o| o.show()).collect::<Vec<_>>().join(" ")
 }
+
+// ------------------------------------------------------------------ isolated runs (time-limited)
+
+/// An output stream item in model form (sendable between threads).
+#[derive(Clone, Debug)]
+pub enum OutM {
+    Val(MVal),
+    Err(MVal),
+    Halt(i32),
+    Escape(String),
+    Panic(String),
+}
+
+impl OutM {
+    pub fn show(&self) -> String {
+        match self {
+            OutM::Val(v) => v.show(),
+            OutM::Err(v) => format!("ERROR({})", v.show()),
+            OutM::Halt(c) => format!("HALT({c})"),
+            OutM::Escape(s) => format!("ESCAPE({s})"),
+            OutM::Panic(s) => format!("PANIC({s})"),
+        }
+    }
+    pub fn from_out(o: &Out) -> OutM {
+        match o {
+            Out::Val(v) => OutM::Val(MVal::from_val(v)),
+            Out::Err(v) => OutM::Err(MVal::from_val(v)),
+            Out::Halt(c) => OutM::Halt(*c),
+            Out::Escape(s) => OutM::Escape(s.clone()),
+            Out::Panic(s) => OutM::Panic(s.clone()),
+        }
+    }
+}
+
+#[derive(Clone, Debug)]
+pub enum Iso {
+    Outs(Vec<OutM>),
+    CompileError(String),
+    /// the run did not finish within the time limit (the helper thread is abandoned)
+    Timeout,
+}
+
+struct IsoReq {
+    code: String,
+    vars: Vec<(String, MVal)>,
+    input: MVal,
+    inputs: Vec<MVal>,
+    limit: usize,
+}
+
+struct Helper {
+    tx: std::sync::mpsc::Sender<IsoReq>,
+    rx: std::sync::mpsc::Receiver<Iso>,
+}
+
+thread_local! {
+    static HELPER: RefCell<Option<Helper>> = RefCell::new(None);
+}
+
+static ABANDONED: std::sync::atomic::AtomicUsize = std::sync::atomic::AtomicUsize::new(0);
+
+fn spawn_helper() -> Helper {
+    let (tx, hrx) = std::sync::mpsc::channel::<IsoReq>();
+    let (htx, rx) = std::sync::mpsc::channel::<Iso>();
+    std::thread::Builder::new()
+        .stack_size(512 << 20)
+        .spawn(move || {
+            while let Ok(req) = hrx.recv() {
+                let names: Vec<&str> = req.vars.iter().map(|(n, _)| n.as_str()).collect();
+                let res = match cached(&req.code, &names) {
+                    None => Iso::CompileError(compile(&req.code, &names).err().unwrap_or_default()),
+                    Some(f) => {
+                        let outs = run_with(
+                            &f,
+                            req.vars.iter().map(|(_, v)| v.to_val()).collect(),
+                            req.input.to_val(),
+                            req.inputs.iter().map(|v| v.to_val()).collect(),
+                            req.limit,
+                        );
+                        Iso::Outs(outs.iter().map(OutM::from_out).collect())
+                    }
+                };
+                if htx.send(res).is_err() {
+                    break;
+                }
+            }
+        })
+        .expect("spawn helper thread");
+    Helper { tx, rx }
+}
+
+/// Compile and run in a helper thread, giving up after `timeout_ms`.  A run
+/// that does not come back is abandoned (its thread keeps spinning); after too
+/// many abandoned runs the whole check stops as INCONCLUSIVE (exit 2).
+pub fn run_isolated(code: &str, vars: &[(&str, &MVal)], input: &MVal, inputs: &[MVal], limit: usize, timeout_ms: u64) -> Iso {
+    HELPER.with(|h| {
+        let mut h = h.borrow_mut();
+        if h.is_none() {
+            *h = Some(spawn_helper());
+        }
+        let helper = h.as_ref().unwrap();
+        let req = IsoReq {
+            code: code.to_string(),
+            vars: vars.iter().map(|(n, v)| (n.to_string(), (*v).clone())).collect(),
+            input: input.clone(),
+            inputs: inputs.to_vec(),
+            limit,
+        };
+        if helper.tx.send(req).is_err() {
+            *h = None;
+            return Iso::Outs(vec![OutM::Panic("helper thread died".into())]);
+        }
+        match helper.rx.recv_timeout(std::time::Duration::from_millis(timeout_ms)) {
+            Ok(r) => r,
+            Err(std::sync::mpsc::RecvTimeoutError::Timeout) => {
+                *h = None;
+                let n = ABANDONED.fetch_add(1, std::sync::atomic::Ordering::SeqCst) + 1;
+                if n > 12 {
+                    println!("INCONCLUSIVE reason=too-many-runs-exceeded-their-time-limit last={}", code.chars().take(400).collect::<String>());
+                    std::process::exit(2);
+                }
+                Iso::Timeout
+            }
+            Err(_) => {
+                *h = None;
+                Iso::Outs(vec![OutM::Panic("helper thread died".into())])
+            }
+        }
+    })
+}
+
+pub fn abandoned_runs() -> usize {
+    ABANDONED.load(std::sync::atomic::Ordering::SeqCst)
+}
+
+pub fn show_outs_m(outs: &[OutM]) -> String {
+    outs.iter().map(|o| o.show()).collect::<Vec<_>>().join(" ")
+}
